@@ -187,6 +187,12 @@ def main():
                   ("http://example.com/\u00c9/X?k=\u00c9", "http://example.com/%C3%89/%58?k=%c3%89"), ("http://example.com/p#\u00c9", "http://example.com/p#%C3%89")):
         for kw in ({}, {"strip_suffix": True}):
             check_equal(col, "escape-spelling+case", u, tu, kw)
+    # punycode and Unicode spellings of a label, label by label (a raw label next to an encoded one)
+    for u, tu in (("http://\u044f\u043d\u0434\u0435\u043a\u0441.\u0440\u0444/news?a=1", "http://\u044f\u043d\u0434\u0435\u043a\u0441.xn--p1ai/news?a=1"),
+                  ("http://\u044f\u043d\u0434\u0435\u043a\u0441.\u0440\u0444/news?a=1", "http://xn--d1acpjx3f.xn--p1ai/news?a=1"),
+                  ("http://t\u00e9l\u00e9rama.fr/a", "http://XN--TLRAMA-BVAB.fr/a"), ("http://caf\u00e9.t\u00e9l\u00e9rama.fr/a", "http://caf\u00e9.xn--tlrama-bvab.fr/a")):
+        for kw in ({}, {"strip_suffix": True}):
+            check_equal(col, "punycode-spelling", u, tu, kw)
     # fingerprint_url has a result for every string (what cannot be parsed comes back as given): strings that do not parse, or have no host
     for u in ODD:
         for kw in ({}, {"strip_suffix": True}, {"platform_aware": True}, {"unsplit": False}):
